@@ -1,7 +1,7 @@
 SPECIFICATION Spec
 CONSTANTS
   Slacks = {0, 1, 60, 86400}
-  Spellings = {"Z", "fracZ", "noZ", "frac", "fracHighZ"}
+  Spellings = {"Z", "fracZ", "noZ", "frac", "fracHighZ", "offPlus", "offMinus"}
 INVARIANT PipelineMeetsContract
 INVARIANT ContractConsistent
 CHECK_DEADLOCK FALSE
